@@ -56,6 +56,24 @@ pub fn handle_ext(kind: &str, req: &Value) -> Result<Value, String> {
         Err(e) => Ok(json!({"rejected": e})),
       }
     },
+    "save_reload" => {
+      // what add_systemd_service does (serde_json::to_writer_pretty of the basic layout) followed by what the service
+      // does (load_layout_from_file) - through a temporary file
+      let layout = crate::layout_of(&req["layout"])?;
+      let saved = serde_json::to_string_pretty(&layout).map_err(|e| format!("{}", e))?;
+      let path = std::env::temp_dir().join(format!("tmreplay-{}-{}.json", std::process::id(), req["nonce"].as_u64().unwrap_or(0)));
+      std::fs::write(&path, &saved).map_err(|e| format!("{}", e))?;
+      let res = crate::layout_loading::load_layout_from_file(path.to_str().unwrap());
+      let _ = std::fs::remove_file(&path);
+      match res {
+        Ok(l) => {
+          let a = basic_layout_json(&layout);
+          let b = basic_layout_json(&l);
+          Ok(json!({"saved": saved, "reloaded": b, "same": a == b}))
+        },
+        Err(e) => Ok(json!({"saved": saved, "rejected": e, "same": false})),
+      }
+    },
     "key_names" => {
       // Display name and serde name of every key code the tool knows
       let mut out = Vec::new();
